@@ -5,6 +5,13 @@ C17 line-protocol driver.  One case = one whole Caddyfile (bytes, hex):
                W = 1 iff x lies in the fragment `inW` on which preservation and idempotence are
                    PROVED (the harness recomputes this predicate independently)
 tokens = `err:<class>` | `-` (no token) | `line.q.texthex,…` with q ∈ n (unquoted) d (") b (`) h (heredoc).
+
+  cf <mode> <hex>   the command `caddy fmt` on a file holding the bytes (harness: the real cmdFmt):
+               mode p = print, w = --overwrite, s = stdin (`caddy fmt -`), d = --diff
+               answer: `C:<hex of the emitted Caddyfile | -> E:<exit status>`; the emitted Caddyfile is
+               `cmdFmtOut` = Format of the file's bytes, untouched on the way in and out; E = 1 iff
+               the command reports "input is not formatted" (modes p and d; the comparison there,
+               `caddyfile.FormattingDifference`, is made after CR LF → LF on a private copy)
 -/
 import CaddyModel.C17.Fragment
 
@@ -36,11 +43,36 @@ def roundTrip (b : Bytes) : String :=
   " I:" ++ (if formatBytes (formatBytes b) = formatBytes b then "1" else "0") ++
   " W:" ++ (if inW (decodeUtf8 b) then "1" else "0")
 
+/-- `bytes.Replace(body, "\r\n", "\n", -1)` -/
+def normCRLF : Bytes → Bytes
+  | [] => []
+  | [c] => [c]
+  | c :: d :: t => if c = 13 ∧ d = 10 then 10 :: normCRLF t else c :: normCRLF (d :: t)
+
+/-- **the glue of the command** (cmd/commandfuncs.go cmdFmt): what `caddy fmt <file>` prints, what
+    `caddy fmt --overwrite <file>` leaves in the file, what `caddy fmt -` prints for the bytes on
+    stdin — in every mode `Format` of exactly the bytes read, emitted unchanged -/
+def cmdFmtOut (_mode : String) (b : Bytes) : Bytes := encodeUtf8 (cmdFmtRunes (decodeUtf8 b))
+
+/-- exit status: `caddy fmt <file>` and `--diff` end with status 1 when the file is not formatted
+    (`FormattingDifference`: `Format(norm) ≠ norm` for the CR LF-normalised copy `norm`) -/
+def cmdFmtExit (mode : String) (b : Bytes) : Nat :=
+  if (mode = "p" ∨ mode = "d") ∧ formatBytes (normCRLF b) ≠ normCRLF b then 1 else 0
+
+def cmdFmtLine (mode : String) (b : Bytes) : String :=
+  "C:" ++ (if mode = "d" then "-" else Hex.encode (cmdFmtOut mode b)) ++ " E:" ++ toString (cmdFmtExit mode b)
+
 def handle : List String → String
   | ["rt", inp] =>
     match Hex.decode inp with
     | some b => roundTrip b
     | none => "bad-op"
+  | ["cf", mode, inp] =>
+    if mode = "p" ∨ mode = "w" ∨ mode = "s" ∨ mode = "d" then
+      match Hex.decode inp with
+      | some b => cmdFmtLine mode b
+      | none => "bad-op"
+    else "bad-op"
   | _ => "bad-op"
 
 /-! ### proved counter-examples (Witness.lean), replayed on the implementation on every run -/
